@@ -20,7 +20,10 @@ def vlq(seg):
 def decode(path):
     """returns (sources, names, mappings) with mappings = list of
     dict(gen_line(1-based), gen_col, src(index or None), line(1-based), col, name)"""
-    m = json.load(open(path))
+    return decode_obj(json.load(open(path)))
+
+
+def decode_obj(m):
     res = []
     src = line = col = name = 0
     for gl, group in enumerate(m["mappings"].split(";"), 1):
